@@ -259,6 +259,12 @@ Proof.
   - eapply adds_nil_trans; [|apply IH]. unfold store. apply adds_track.
   - eapply adds_nil_trans; [|apply IH]. unfold drop_output. apply adds_track.
 Qed.
+Lemma drop_only_adds_nothing h d inv ks : ds_life d <> Singleton -> forall p, adds [] h p (drop_only p h d inv ks).
+Proof.
+  intros Hl. induction ks as [|j rest IH]; intros p; cbn [drop_only]; [apply adds_refl|].
+  destruct (output_desc (p_descs p) d j); [apply IH|].
+  eapply adds_nil_trans; [|apply IH]. unfold drop_output. destruct (ds_life d); [congruence| |]; apply adds_track.
+Qed.
 Lemma share_all_transient h l i p : fold_left (fun p a => share Transient p h (ds_ident a) i) l p = p.
 Proof. revert p; induction l as [|a l IH]; intros p; cbn [fold_left share]; [reflexivity|apply IH]. Qed.
 
@@ -360,7 +366,9 @@ Section Create.
       assert (H3 : St c h base (if cancels (ds_reg d) inv then log rs2' EvCancel else rs2')) by (destruct (cancels (ds_reg d) inv); exact H1).
       set (rs2 := if cancels (ds_reg d) inv then log rs2' EvCancel else rs2') in *.
       destruct (effective_outcome (ds_reg d) inv); cbn [fst]; try exact H3.
-      apply Hfan; [exact H3|unfold multi; rewrite Hf; reflexivity|unfold arity; rewrite Hf; reflexivity].
+      match goal with |- context [stores_any ?a ?b ?c] => destruct (stores_any a b c) end; cbn [fst].
+      + apply Hfan; [exact H3|unfold multi; rewrite Hf; reflexivity|unfold arity; rewrite Hf; reflexivity].
+      + apply St_keeps; [exact H3|]. apply drop_only_adds_nothing. exact Hns.
   Qed.
 End Create.
 
